@@ -10,8 +10,13 @@
   file are compared with the model; oracle on the implementation's files: outside the range no existing file is
   rewritten, truncated or removed — at most one earlier file grows (its old content a prefix), relocated
   records may open files in empty slots below the range, nothing changes at or above end+1.
-  Partial (DESIGN.md C17): the touch-set theorem for `gcRun` itself and mutual exclusion of two passes
-  (a schedule property; F21) are not proved here.
+  Single pass per bucket: `C17_one_pass` below — when "is a pass registered?" and "register it" are one step (as
+  in HStore.GC since /repo "fix: register the GC pass…"), every interleaving of requests and pass ends keeps at
+  most one pass per bucket; `C17_two_step_admits_two` is the historical behaviour (check now, register later inside
+  the spawned goroutine): two requests both pass the check.  Tied by engine `conc` (mix c17): two requests for one
+  bucket 0..3000 µs apart (with and without the merge preparation), the maximal number of simultaneously running
+  passes is observed through hook points at the begin and end of a pass.
+  Partial (DESIGN.md C17): the touch-set theorem for `gcRun` itself is not proved here.
 -/
 import GoBeans.Model.GC
 open Store
@@ -75,3 +80,51 @@ def exB : Bucket :=
 example : (gcCheckRange {} exB { start := -1, stop := -1, noGCDays := 0, now := 1000 }).toOption = some (0, 1) := by decide +kernel
 example : (gcCheckRange {} exB { start := 4, stop := -1, noGCDays := 0, now := 1000 }).toOption = none := by decide +kernel
 example : (gcCheckRange {} exB { start := 0, stop := 7, noGCDays := 30, now := 1000 }).toOption = none := by decide +kernel
+
+
+/-! ### at most one pass per bucket (schedule part) -/
+namespace GCReg
+
+inductive Ev
+  | request          -- HStore.GC: test "no pass registered" and register, in one step
+  | finish           -- the pass ends and unregisters
+deriving DecidableEq, Repr
+
+/-- number of passes running on the bucket -/
+def step (running : Nat) : Ev → Nat
+  | .request => if running = 0 then 1 else running
+  | .finish => running - 1
+
+/-- the historical protocol: the check and the registration are separate steps of each request -/
+inductive Ev2
+  | check (req : Nat)       -- request `req` looks: allowed iff nothing is registered
+  | register (req : Nat)    -- … and later registers and starts its pass, if it was allowed
+  | finish
+deriving DecidableEq, Repr
+
+structure St2 where
+  running : Nat := 0
+  allowed : List Nat := []
+
+def step2 (s : St2) : Ev2 → St2
+  | .check r => if s.running = 0 then { s with allowed := r :: s.allowed } else s
+  | .register r => if s.allowed.contains r then { running := s.running + 1, allowed := s.allowed.erase r } else s
+  | .finish => { s with running := s.running - 1 }
+
+end GCReg
+
+theorem C17_one_pass (evs : List GCReg.Ev) : evs.foldl GCReg.step 0 ≤ 1 := by
+  have h : ∀ (evs : List GCReg.Ev) (n : Nat), n ≤ 1 → evs.foldl GCReg.step n ≤ 1 := by
+    intro evs
+    induction evs with
+    | nil => intro n hn; exact hn
+    | cons e es ih =>
+      intro n hn
+      apply ih
+      cases e <;> simp only [GCReg.step]
+      · split <;> omega
+      · omega
+  exact h evs 0 (by omega)
+
+theorem C17_two_step_admits_two :
+    ([GCReg.Ev2.check 1, .check 2, .register 1, .register 2].foldl GCReg.step2 {}).running = 2 := by decide
